@@ -606,7 +606,9 @@ traversal:
 		ft := f.transform()
 		cpath := clientPathFromTransform(ft)
 		if row := p.clients[cpath]; len(row) > 0 {
-			return row[0].client
+			c := row[0].client
+			p.mu.Unlock()
+			return c
 		}
 		c, pr := NewPromisedClient(pipelineClient{
 			p:         p,
